@@ -12,7 +12,7 @@ def sh(cmd, **kw):
     return subprocess.run(cmd, shell=True, capture_output=True, text=True, **kw)
 names = sys.argv[1:] or sorted(d for d in os.listdir(os.path.join(ROOT, 'seeded'))
                                if os.path.isdir(os.path.join(ROOT, 'seeded', d)))
-resf = os.path.join(ROOT, 'seeded', 'RESULTS.json')
+resf = os.environ.get('SEEDED_OUT') or os.path.join(ROOT, 'seeded', 'RESULTS.json')
 results = json.load(open(resf)) if os.path.exists(resf) else {}
 for name in names:
     d = os.path.join(ROOT, 'seeded', name)
